@@ -15,6 +15,29 @@ Mode: lattice sweep (complete products, nothing sampled). Sub-checks ("sub" of a
              real CTMCCredit grid (INVERSION on the symmetric grid, BINARYSEARCHTREEADAPTED on the asymmetric one, as
              scripts/benchmark/first_to_default.py does), the default-time underlyings on scripted jump paths.
              Quick: exponential margins, plus (first copula, unequal threshold tuple) plain Levy margins and reinit margins.
+ twins       one case per (pair of Levy-copula models that differ in exactly ONE thing, h): both models alive in the process,
+             asked ALTERNATELY at the SAME threshold vectors (all 3^d tuples of fractions of the less deep of the two left
+             truncations) and, on the unequal tuple, through chains on credit grids of the same h / thresholds / flag (both
+             flags; read base, twin, base again); every answer judged against the reference of ITS OWN model (oracles (i), (ii),
+             (iv): theta, survival probability, first-to-default par spread, implied spread; default rate of the chain by both
+             notions of rate). The one thing, enumerated completely:
+               margin-parameter  every constructor parameter of every parameter class in turn (HEM sigma, p, eta1, eta2,
+                                 intensity; Merton sigma, sigma_j, mu_j, intensity; VG sigma, nu, theta; CGMY c, g, m, y for
+                                 y = 0.5 and y = 1.2), the names read from the constructor's signature (a parameter this
+                                 module has no twin value for is reported as a cap); the other margin is a HEM;
+                                 also the one-name closed forms CFLevyModel of the two margins, alternately;
+               model-argument    spot, r, d of an exponential margin (the measure is the same: the answers must be, too;
+                                 implied spread with the model's own r);
+               copula            Clayton theta only, Clayton eta only; margins built anew or the SAME margin objects shared by
+                                 both models (a copula re-calibrated on fixed margins);
+               margin-order      the same margins in reversed order (thresholds not reversed).
+             Then the copy.deepcopy / copy.copy / dill round trip of each MODEL answers like its original (16 ulps) and like
+             the reference, the base model is asked again on a fresh pricer, and both originals are asked again after the
+             chains (which work on truncated deep copies of them) were built. Follow-ups are skipped when the first,
+             alternating answers were already wrong (reported once).
+             Quick: d = 2 with the first copula, h = 0.1: exponential margins with the varied margin first and plain Levy
+             margins with the varied margin second; d = 3: HEM p, CGMY y, copula theta, margin order. Thorough: both kinds x
+             both positions, every parameter of HEM / VG in d = 3, every copula (HEM p, CGMY y), h = 0.05 (HEM).
  forms       argument forms and the caller's containers (no chain is built; same cases in both tiers unless stated):
              underlying         one case per (number of names 1..3, form of the threshold vector in list | tuple | list of
                                 np.float64 | float64 array | int list | int64 array): NthDefaultTimes (every index) and
@@ -149,7 +172,9 @@ RULE = (
     "sequence of <= 2 operations of the payoff / pricer / 1-d chain menus and one cumulative history of the copula chain menu "
     "on re-used objects (menus include copy.copy / deepcopy / dill round trip); sub 'forms': complete product of (class taking "
     "thresholds or numbers x legal argument form x ladder of threshold vectors) with the caller's container refilled after "
-    "construction / between calls; a case is non-trivial when at least one chain default-rate sum, closed-form intensity or "
+    "construction / between calls; sub 'twins': complete product of (margin family x constructor parameter | model argument | "
+    "copula parameter | margin order) as the ONE difference between two models alive together, asked alternately at all 3^d "
+    "threshold tuples and through chains on both grid shapes, each against its own reference; a case is non-trivial when at least one chain default-rate sum, closed-form intensity or "
     "default time was compared with its reference; distinct = distinct case dict"
 )
 ASSUMPTIONS = [
@@ -161,6 +186,7 @@ ASSUMPTIONS = [
     "thresholds are fractions of the grid's left truncation; h in {0.1, 0.05}; dimension <= 3",
     "histories: at most two operations per object (copula chain: the eight operations of the menu once each, in menu order); the "
     "sampler's draw inside a chain history uses numpy's global generator, seeded before and restored after the draw",
+    "twins: one other value per constructor parameter (TWIN_VALUES), the partner margin is a HEM, two models at a time",
     "forms: the ladders of the default-time underlyings are fixed threshold vectors (-0.2, -0.3, -0.25 and multiples; -2, -4, -3 "
     "for the integer forms), independent of any grid; the pricers' form comparisons are differential (usual form = reference)",
 ]
@@ -1963,9 +1989,9 @@ def _twin_cases(tier):
         triples += [(("hem", "hem2", "cgmy05"), 1, par) for par in TWIN_VALUES["hem"]]
         triples += [(("hem", "vg", "cgmy05"), 1, par) for par in TWIN_VALUES["vg"]]
     for margins, pos, par in triples:
-        add(margins, cop0, True, {"kind": "margin-parameter", "position": pos, "name": par}, chain=thorough)
-    add(("hem", "hem2", "cgmy05"), cop0, True, {"kind": "copula", "other": TWIN_COPULAS[0][1], "shared_margins": False}, chain=thorough)
-    add(("hem", "hem2", "cgmy05"), cop0, True, {"kind": "margin-order"}, chain=thorough)
+        add(margins, cop0, True, {"kind": "margin-parameter", "position": pos, "name": par})
+    add(("hem", "hem2", "cgmy05"), cop0, True, {"kind": "copula", "other": TWIN_COPULAS[0][1], "shared_margins": False})
+    add(("hem", "hem2", "cgmy05"), cop0, True, {"kind": "margin-order"})
     if thorough:
         for c in A.copula_specs(tier):
             if c == cop0:
